@@ -299,8 +299,8 @@ func c09IsProper(N int) {
 	rt.Reach("end")
 }
 
-func H_c09_isproper_q() { c09IsProper(3) }
-func H_c09_isproper_t() { c09IsProper(4) }
+func H_c09_isproper_q()  { c09IsProper(3) }
+func H_c09_isproper_t()  { c09IsProper(4) }
 func H_c09_colouring_t() { c09Colouring(5) }
 
 func c09Greedy(N int) {
